@@ -25,7 +25,7 @@ class Items:
 BUILTIN_NAMES = {
     'len', 'min', 'max', 'sum', 'map', 'filter', 'any', 'all', 'zip', 'enumerate', 'range', 'divmod', 'int', 'str', 'bool',
     'round', 'tuple', 'list', 'dict', 'isinstance', 'issubclass', 'getattr', 'setattr', 'hasattr', 'callable', 'type', 'repr',
-    'bytearray', 'bytes', 'float', 'slice', 'Counter', 'defaultdict', 'Number', 'abs', 'sorted', 'reversed', 'next', 'iter', 'set', 'super', 'open', 'print', 'format', 'id', 'object',
+    'bytearray', 'bytes', 'float', 'slice', 'Counter', 'defaultdict', 'Number', 'abs', 'prod', 'sorted', 'reversed', 'next', 'iter', 'set', 'super', 'open', 'print', 'format', 'id', 'object',
     # specification vocabulary
     'old', 'implies', 'iff', 'fresh_bytes', 'fresh_refs', 'fresh_int', 'in_seq', 'ascii_bytes', 'all_ascii', 'ieee32', 'ieee64', 'f32_overflow', 'progressbar', 'timeit', 'hc_name_ok', 'enum_member',
 }
